@@ -2,8 +2,12 @@
 package c11
 
 import (
+	"context"
 	"fmt"
+	"net"
 	"strings"
+	"sync"
+	"syscall"
 	"testing"
 	"time"
 
@@ -36,6 +40,23 @@ type discCase struct {
 	// window after the request was seen (non-decreasing, at most 70: every datagram is sent well before the timeout)
 	WindowMs int   `json:"window_ms,omitempty"`
 	AtPct    []int `json:"at_pct,omitempty"`
+	// socket layer: FixedPort - the client has a fixed bind port; Rival - while the discovery is collecting replies, ANOTHER
+	// program on the host (another instance of an application built on the library: sockets with SO_REUSEADDR) tries to bind
+	// the same address and port. Whether it is refused or not, the discovery returns the controllers that answered.
+	FixedPort bool `json:"fixed_bind_port,omitempty"`
+	Rival     bool `json:"rival_socket_on_bind_port,omitempty"`
+}
+
+// rivalSocket binds a UDP socket with SO_REUSEADDR to ip:port (nil if the operating system refuses).
+func rivalSocket(ip [4]byte, port uint16) net.PacketConn {
+	lc := net.ListenConfig{Control: func(network, address string, rc syscall.RawConn) error {
+		return rc.Control(func(fd uintptr) { syscall.SetsockoptInt(int(fd), syscall.SOL_SOCKET, syscall.SO_REUSEADDR, 1) })
+	}}
+	pc, err := lc.ListenPacket(context.Background(), "udp4", fmt.Sprintf("%d.%d.%d.%d:%d", ip[0], ip[1], ip[2], ip[3], port))
+	if err != nil {
+		return nil
+	}
+	return pc
 }
 
 func isValid(d []byte) bool {
@@ -229,7 +250,27 @@ func runSocket(c discCase, scale int) *rp.Fail {
 		extra = append(extra, e)
 	}
 	multi := false
+	var bindPort uint16
+	var rivals []net.PacketConn
+	var rivalMu sync.Mutex
+	defer func() {
+		rivalMu.Lock()
+		for _, r := range rivals {
+			r.Close()
+		}
+		rivalMu.Unlock()
+	}()
 	main, err := f.UDP([4]byte{127, 0, 2, 1}, 0, farm.Script(func(r farm.Received) []farm.Action {
+		if c.Rival && bindPort != 0 {
+			if pc := rivalSocket([4]byte{127, 0, 0, 1}, bindPort); pc != nil {
+				rivalMu.Lock()
+				rivals = append(rivals, pc)
+				rivalMu.Unlock()
+				ev.Class("socket/rival-socket-could-bind-the-bind-port", 1)
+			} else {
+				ev.Class("socket/rival-socket-was-refused", 1)
+			}
+		}
 		var a []farm.Action
 		window := 120
 		if c.WindowMs != 0 {
@@ -265,6 +306,11 @@ func runSocket(c discCase, scale int) *rp.Fail {
 		cfg.TimeoutMs = c.WindowMs * scale
 	}
 	cfg.BindIP = [4]byte{127, 0, 0, 1}
+	if c.FixedPort || c.Rival {
+		if p, err := farm.FreePort(cfg.BindIP); err == nil {
+			cfg.BindPort, bindPort = p, p
+		}
+	}
 	u := hook.Real(cfg)
 	var list []types.Device
 	var pn any
@@ -349,6 +395,10 @@ func genCase(layer string) func(t *rapid.T) discCase {
 		if rapid.IntRange(0, 3).Draw(t, "broadcast.set") != 0 || layer == "socket" {
 			c.Cfg.HasBroadcast, c.Cfg.BroadcastPort = true, gen.Port(t, "broadcast.port")
 			c.Cfg.BroadcastIP = rapid.SampledFrom([][4]byte{{192, 168, 1, 255}, {192, 168, 1, 255}, {255, 255, 255, 255}, {0, 0, 0, 0}, {127, 0, 0, 1}, {10, 255, 255, 255}, {192, 168, 1, 100}}).Draw(t, "broadcast.ip")
+		}
+		if layer == "socket" {
+			c.FixedPort = rapid.IntRange(0, 3).Draw(t, "fixed.port") == 0
+			c.Rival = rapid.IntRange(0, 5).Draw(t, "rival") == 0
 		}
 		l := spec.Responses["GetDevices"]
 		n := rapid.IntRange(0, 12).Draw(t, "datagrams")
@@ -469,6 +519,7 @@ func props() []rp.Prop {
 	return []rp.Prop{
 		rp.P[discCase]{Name: "hook-discovery", Checks: ev.Pick(24000, 3000000) / ev.Shards(), Gen: genCase("hook"), Check: check},
 		rp.P[discCase]{Name: "socket-discovery", Checks: ev.Pick(320, 19200) / ev.Shards(), Gen: genCase("socket"), Sweep: sweepCounts, Check: check},
+		rp.P[burstCase]{Name: "burst", Sweep: sweepBurst, Check: checkBurst},
 	}
 }
 
